@@ -32,6 +32,8 @@ pub assume_specification<T>[ <[T]>::as_ptr ](s: &[T]) -> (r: *const T);
 
 //@include inc/ser_base.tpl
 
+//@include inc/ser_spec.tpl
+
 //@include inc/ser_impls.tpl
 
 } // verus!
